@@ -84,8 +84,10 @@ class Hist:
         else: self.arate = value
     def rand_param(self, group=None, name=None):
         rng = self.rng
-        group = group or rng.choice([b'POINT', b'ANALOG', b'FORCE_PLATFORM', b'EXTRA', b'extra', rname(rng, 6, False)])
-        name = name or rng.choice([b'CUSTOM', b'custom', b'X', rname(rng, 6, False), b'ZERO', b'GEN_SCALE', b'DESCRIPTIONS'])
+        group = group or rng.choice([b'POINT', b'ANALOG', b'FORCE_PLATFORM', b'EXTRA', b'extra', rname(rng, 6, False),
+                                     # names of 16 characters and more (heap-allocated std::string) up to the format's 127
+                                     b'FORCE_PLATFORM_CALIBRATION', b'A_GROUP_NAME_OF_32_CHARACTERS_XX', b'G' * rng.choice([15, 16, 17, 64, 127])])
+        name = name or rng.choice([b'CUSTOM', b'custom', b'X', rname(rng, 6, False), b'ZERO', b'GEN_SCALE', b'DESCRIPTIONS', b'A_PARAMETER_NAME_OF_28_CHARS', b'N' * rng.choice([16, 31, 127])])
         desc = b'' if rng.random() < 0.5 else bytes(rng.randrange(32, 127) for _ in range(rng.choice([1, 5, 40])))
         self.lines.append('P.new %s %s' % (hx(name), hx(desc)))
         ty = rng.choice('IFS')
